@@ -42,6 +42,7 @@ type TunnelSpec struct {
 	MD     map[string][]string `json:"md,omitempty"`     // opening metadata
 	Peer   string              `json:"peer,omitempty"`   // peer address the handler side sees
 	CtxVal string              `json:"ctxval,omitempty"` // interceptor-set context value
+	IcptMD map[string][]string `json:"icpt_md,omitempty"` // outgoing metadata a client stream interceptor adds to the tunnel-opening call
 	Server int                 `json:"server,omitempty"` // reverse: index of the ReverseTunnelServer instance that serves this tunnel
 }
 
